@@ -1,6 +1,7 @@
 import LibInj.Proofs.Case
 import LibInj.Proofs.LexOK
 import LibInj.Sqli.Check
+import LibInj.Proofs.SqlCase
 set_option linter.unusedSimpArgs false
 /-! # C10 — SQLi detection is insensitive to ASCII letter case
 
@@ -20,9 +21,9 @@ The exempt positions are exactly where the code compares a letter case-sensitive
 (`parseBackSlash`), dollar-quote tags (`strings.Index` with the raw tag), q-string delimiters, and
 the marker `sp_password` (`strings.Contains`).
 
-Not yet a theorem (`sqli_case_insensitive_statement`): congruence of every lexer and of `fold` over
-token values that are `CaseEq` — decided by the case re-assignment oracle (exhaustive for ≤ 10
-letters per input in the thorough tier) over every generated input and every keyword of the table. -/
+`sqli_case_insensitive` closes the full statement on the model (`Proofs/SqlCase`: every stage commutes
+with lower-casing). The case re-assignment oracle (exhaustive for ≤ 10 letters per input in the thorough
+tier) checks the same statement on the real package. -/
 namespace LibInj.Properties.C10
 open LibInj LibInj.Sqli
 
@@ -62,13 +63,41 @@ theorem scan_predicates_case (c : UInt8) (h : isUpperAscii c = true) :
   obtain ⟨⟨⟨⟨⟨a, b⟩, c'⟩, d⟩, e⟩, f⟩ := this
   exact ⟨a, b, c', d, e, f⟩
 
+/-- C10 at full strength. The four hypotheses are exactly the exempt positions of the property: the byte
+after a backslash is not `N`/`n` (the `\N` literal), a `$` is not followed by a letter (dollar-quote tag),
+the delimiter of a `q'…'` string is not a letter, and no case variant of `sp_password` occurs. -/
 def sqli_case_insensitive_statement : Prop :=
   ∀ (s s' : Bytes), CaseEq s s' →
-    (∀ i : Nat, s[i]? = some (92 : UInt8) → s[i+1]? ≠ some (78 : UInt8) ∧ s[i+1]? ≠ some (110 : UInt8)) →   -- no `\\N`
-    (36 : UInt8) ∉ s →                                                     -- no dollar-quote tag
-    (∀ i : Nat, (s[i]? = some (113 : UInt8) ∨ s[i]? = some (81 : UInt8)) → s[i+1]? ≠ some (39 : UInt8)) →      -- no q-string
-    ¬ contains (s.map lowerAscii) spPassword = true →                      -- no case variant of sp_password
+    (∀ i : Nat, s[i]? = some (92 : UInt8) → s[i+1]? ≠ some (78 : UInt8) ∧ s[i+1]? ≠ some (110 : UInt8)) →
+    (∀ i : Nat, s[i]? = some (36 : UInt8) → ∀ c, s[i+1]? = some c → isLetter c = false) →
+    (∀ i : Nat, (s[i]? = some (113 : UInt8) ∨ s[i]? = some (81 : UInt8)) → s[i+1]? = some (39 : UInt8) →
+      ∀ c, s[i+2]? = some c → isLetter c = false) →
+    ¬ contains (s.map lowerAscii) spPassword = true →
     isSQLi s = isSQLi s'
+
+/-- **C10: verdict and fingerprint are invariant under any re-assignment of ASCII letter case outside
+the exempt positions.** Proved by showing that every stage of the pipeline (the 22 lexers, `tokenize`,
+the fold rules, the loops, `fingerprint`, the whitelist, the five-context cascade) commutes with
+lower-casing the input and the token values (`Proofs/SqlCase`). -/
+theorem sqli_case_insensitive : sqli_case_insensitive_statement := by
+  intro s s' heq h1 h2 h3 h4
+  have hsp : contains (H5.L s) spPassword = false := by
+    cases h : contains (H5.L s) spPassword with
+    | false => rfl
+    | true => exact absurd h h4
+  have hL : H5.L s = H5.L s' := heq
+  have ok1 := caseOK_of_lower s s rfl h1 h2 h3
+  have ok2 := caseOK_of_lower s s' hL h1 h2 h3
+  rw [← isSQLi_L s ok1 hsp, ← isSQLi_L s' ok2 (by rw [← hL]; exact hsp), hL]
+
+/-- the model's `isSQLi` on an input and on its lower-cased form -/
+theorem sqli_lowercase_normal_form (s : Bytes) (hok : CaseOK s) (hsp : contains (H5.L s) spPassword = false) :
+    isSQLi (H5.L s) = isSQLi s := isSQLi_L s hok hsp
+
+/-- non-vacuity: an input with a money literal, a bracketed q-string and an escaped quote meets the
+hypotheses; its verdict is decided by the kernel -/
+example : CaseOK (bs "1 UnIoN SeLeCt $1, q'[x]', 'a\\'b'") := by
+  apply caseOKb_sound; decide +kernel
 
 example : CaseEq [85, 110, 73, 111, 78] [117, 78, 105, 79, 110] ∧ searchKeyword [85, 110, 73, 111, 78] = 85 := by
   constructor
